@@ -95,7 +95,8 @@ theorem saveAll_skipped {σ : Type} (k : Nat) (l : List (Nat × σ)) (m : Nat) (
 
 /-- a second `train()` on the same trainer object after a resuming session: same steps, directory unchanged -/
 theorem trainAgain_spec (k : Nat) (hk : 1 ≤ k) (c : TrainCfg) (hc : c.Resuming) (d : Dir Nat) (hd : Coh d) :
-    ∃ o o', trainSession k c d = .ok o ∧ trainAgain k c o = .ok o' ∧ o'.events = o.events ∧ o'.dir = o.dir := by
+    ∃ o o', trainSession k c d = .ok o ∧ trainAgain k c o = .ok o' ∧
+      o'.events = o.events.map (fun e => { e with batch := e.batch + o.events.length }) ∧ o'.dir = o.dir := by
   obtain ⟨evs, hloop, hsteps, hlog, hle⟩ := sessionLoop_ok c (stepOf (latestD d)) (Or.inl ⟨hc.lg, hc.sp⟩)
   obtain ⟨o, ho, hoff, _, _, hcoh, hlat⟩ := trainSession_spec k hk c hc d hd
   have hb : c.batchSize ≠ 0 := by have := hc.bs; omega
@@ -111,9 +112,16 @@ theorem trainAgain_spec (k : Nat) (hk : 1 ≤ k) (c : TrainCfg) (hc : c.Resuming
     | none => rw [hod] at hlat; simp [latestD] at hlat
     | some l => exact ⟨l, rfl⟩
   have hlatl : latest l = some (max (stepOf (latestD d)) c.numSteps) := by rw [hl] at hlat; exact hlat
-  refine ⟨o, ⟨o.offset, evs, if c.logflag then c.stepsPerEval * (evs.filter (fun e : StepEv => e.logged)).length else 0, o.dir⟩,
-    ho, ?_, hoev.symm, rfl⟩
-  simp only [trainAgain, hoff, hloop, hc.ck, if_true]
+  have hfl : ∀ (n : Nat), ((evs.map (fun e : StepEv => { e with batch := e.batch + n })).filter (fun e : StepEv => e.logged)).length
+      = (evs.filter (fun e : StepEv => e.logged)).length := by
+    intro n; rw [List.filter_map, List.length_map]; rfl
+  have hfc : ∀ (n : Nat), ((evs.map (fun e : StepEv => { e with batch := e.batch + n })).filter (fun e : StepEv => e.ckpt)).map
+      (fun e : StepEv => e.step + 1) = (evs.filter (fun e : StepEv => e.ckpt)).map (fun e : StepEv => e.step + 1) := by
+    intro n; rw [List.filter_map, List.map_map]; rfl
+  refine ⟨o, ⟨o.offset, evs.map (fun e => { e with batch := e.batch + o.events.length }),
+      if c.logflag then c.stepsPerEval * (evs.filter (fun e : StepEv => e.logged)).length else 0, o.dir⟩,
+    ho, ?_, by rw [hoev], rfl⟩
+  simp only [trainAgain, hoff, hloop, hc.ck, if_true, hfl, hfc]
   congr 2
   rw [hl]
   apply saveAll_skipped k l _ hlatl
